@@ -89,6 +89,7 @@ def scryptRender (p : Parsed) : Res Str :=
         DOLLAR :: (Model.B64.b64sEncode salt ++ DOLLAR :: Model.B64.b64sEncode chk)))))
   else
     if !mIsAscii salt then .error .notImplemented
+    else if salt.contains DOLLAR then .error .notImplemented   -- the salt is written verbatim: "$" would end the salt field
     else
     resBind (Model.B64.encodeInt6 Model.B64.h64 (p.rounds.getD 0).toNat) fun r6 =>
     resBind (Model.B64.encodeInt30 Model.B64.h64 block) fun b30 =>
